@@ -736,6 +736,9 @@ class Summariser:
         if isinstance(t, ast.Constant):
             yield truth, {}, bool(t.value)
             return
+        if isinstance(t, ast.Call) and isinstance(t.func, ast.Name) and t.func.id == "bool" and len(t.args) == 1 and not t.keywords:
+            yield from self._decide(t.args[0], truth, ep)  # bool(x) is true exactly when x is
+            return
         if isinstance(t, ast.UnaryOp) and isinstance(t.op, ast.Not):
             for tr, new, v in self._decide(t.operand, truth, ep):
                 yield tr, new, (None if v is None else not v)
